@@ -167,7 +167,30 @@ pub mod mock {
         Icmp(IntCC, Value, Value),
         IcmpImm(IntCC, Value, i64),
         Fcmp(FloatCC, Value, Value),
+        /// load.ty flags addr+offset
+        Load(Value, i32),
+        /// iadd_imm v, imm
+        IaddImm(Value, i64),
     }
+
+    /// memory effects an arm emitted
+    #[derive(Clone, Copy, PartialEq, Eq, Debug)]
+    pub enum Effect {
+        Store { val: Value, addr: Value, offset: i32 },
+        MemCopy { dest: Value, src: Value, size: u64, non_overlapping: bool },
+    }
+    #[derive(Clone, Copy, PartialEq, Eq, Debug)]
+    pub struct MemFlags;
+    impl MemFlags {
+        pub const fn new() -> Self {
+            MemFlags
+        }
+        pub const fn with_aligned(self) -> Self {
+            self
+        }
+    }
+    #[derive(Clone, Copy, PartialEq, Eq, Debug)]
+    pub struct TargetFrontendConfig;
 
     #[derive(Clone, Copy, Debug)]
     pub struct Node {
@@ -235,6 +258,8 @@ pub mod mock {
         pub eval: bool,
         /// set when Cranelift's verifier would reject an emitted instruction (operand type mismatch)
         pub ill_typed: bool,
+        pub effect: Option<Effect>,
+        pub n_effects: usize,
         pub n_blocks: usize,
         pub term: Option<Term>,
         pub n_terms: usize,
@@ -268,6 +293,8 @@ pub mod mock {
                 trapped: false,
                 eval: false,
                 ill_typed: false,
+                effect: None,
+                n_effects: 0,
                 n_blocks: 0,
                 term: None,
                 n_terms: 0,
@@ -286,6 +313,15 @@ pub mod mock {
         }
         pub fn ins<'short>(&'short mut self) -> FuncInstBuilder<'short, 'c> {
             FuncInstBuilder { b: self }
+        }
+        /// cranelift_frontend::FunctionBuilder::emit_small_memory_copy
+        #[allow(clippy::too_many_arguments)]
+        pub fn emit_small_memory_copy(&mut self, _config: TargetFrontendConfig, dest: Value, src: Value, size: u64, _dest_align: u8, _src_align: u8, non_overlapping: bool, _flags: MemFlags) {
+            if self.node(dest).ty != I64 || self.node(src).ty != I64 {
+                self.ill_typed = true;
+            }
+            self.effect = Some(Effect::MemCopy { dest, src, size, non_overlapping });
+            self.n_effects += 1;
         }
         pub fn create_block(&mut self) -> Block {
             self.n_blocks += 1;
@@ -364,6 +400,27 @@ pub mod mock {
                 v
             };
             self.b.push(ty, Kind::Bin(op, l, r), bits)
+        }
+        pub fn store<O: Into<i32>>(self, _flags: MemFlags, x: Value, p: Value, offset: O) {
+            if self.b.node(p).ty != I64 {
+                self.b.ill_typed = true;
+            }
+            self.b.effect = Some(Effect::Store { val: x, addr: p, offset: offset.into() });
+            self.b.n_effects += 1;
+        }
+        pub fn load<O: Into<i32>>(self, ty: Type, _flags: MemFlags, p: Value, offset: O) -> Value {
+            if self.b.node(p).ty != I64 {
+                self.b.ill_typed = true;
+            }
+            self.b.push(ty, Kind::Load(p, offset.into()), 0)
+        }
+        pub fn iadd_imm(self, v: Value, imm: i64) -> Value {
+            let a = self.b.node(v);
+            if !a.ty.is_int() {
+                self.b.ill_typed = true;
+            }
+            let bits = a.bits.wrapping_add(imm as u64);
+            self.b.push(a.ty, Kind::IaddImm(v, imm), bits)
         }
         pub fn jump(self, block: Block, args: &[Value]) {
             assert!(args.is_empty(), "mock: block arguments are not modelled");
@@ -484,6 +541,9 @@ pub mod mock {
 
     pub struct Isa;
     impl Isa {
+        pub fn frontend_config(&self) -> super::mock::TargetFrontendConfig {
+            super::mock::TargetFrontendConfig
+        }
         pub fn pointer_type(&self) -> super::mock::Type {
             I64
         }
@@ -587,7 +647,9 @@ pub mod codegen {
     use crate::lir::{self, value::IrType, FloatCmp, IntCmp, IrValue, Operand, Var, VarKind};
     #[allow(unused_imports)]
     use crate::label::LabelRef;
-    use crate::mock::{ir, Block, Switch, FloatCC, FuncInstBuilder, FunctionBuilder, IntCC, Isa, Type, VarMap, Variable, F32, F64, I16, I32, I64, I8};
+    use crate::mock::{ir, Block, Switch, MemFlags, FloatCC, FuncInstBuilder, FunctionBuilder, IntCC, Isa, Type, VarMap, Variable, F32, F64, I16, I32, I64, I8};
+
+    const MEMFLAGS: MemFlags = MemFlags::new().with_aligned();
 
     pub struct ModuleBuilder {
         pub variable_map: VarMap<Var, (Variable, Type)>,
@@ -617,6 +679,10 @@ pub mod codegen {
         /*@ARM_DIV@*/
         /*@ARM_FDIV@*/
         /*@ARM_MOD@*/
+        /*@ARM_WRITE@*/
+        /*@ARM_READ@*/
+        /*@ARM_OFFSET@*/
+        /*@ARM_COPY@*/
         /*@ARM_SWITCH@*/
         // the arm `lir::Instruction::Jump(label) => BODY` (tuple pattern: parameter written by hand)
         pub fn arm_jump(&mut self, label: &LabelRef) /*@ARM_JUMP@*/
